@@ -535,7 +535,14 @@ func decodeWord(tok string) (string, bool, error) {
 		return "", false, nil
 	}
 	switch charset {
-	case "utf-8", "us-ascii":
+	case "utf-8":
+		return string(raw), true, nil
+	case "us-ascii":
+		for _, c := range raw {
+			if c >= 0x80 {
+				return "", true, fmt.Errorf("encoded-word %q: labelled US-ASCII but carries 8-bit data", tok)
+			}
+		}
 		return string(raw), true, nil
 	case "iso-8859-1":
 		var b strings.Builder
